@@ -3,7 +3,7 @@
    Inv own ownd ts w: every live item's count = the client's own references + references from live
    containers + pending releases; every data block has exactly one owner; nothing dead is
    referenced.  [own] is the client's reference count per item: the documented ownership rules. *)
-From CB Require Import Word HHeap HItems HOps HHist HRef_proofs HCont_proofs HHist_proofs.
+From CB Require Import Word HHeap HItems HOps HHist HRef_proofs HCont_proofs HHist_proofs HHist2 HHist2_proofs.
 Local Open Scope N_scope.
 
 (* releasing a reference the client owns never touches released memory, never releases twice, never
@@ -82,3 +82,29 @@ Theorem C04_history_no_leak : forall refuse L ops s' outs w', rules_history refu
   (forall a, own_hist refuse L ops s0 own0 world0 a = 0) -> forall a, heap w' a = None.
 Proof. exact C04_history_no_leak_acyclic. Qed.
 Print Assumptions C04_history_no_leak.
+
+(* the three client calls outside the [op] type (HHist2.v): cbor_new_definite_string/bytestring,
+   cbor_string/bytestring_set_handle with a fresh malloc'd buffer, and with the buffer already held
+   (shortening).  Each preserves the same accounting invariants under its legality rule, for every
+   allocator oracle; and a string built by new + set_handle and released gives back the heap. *)
+Theorem C04_step_strings : forall refuse s own ownd w o,
+  Inv own ownd [] w -> HCont_proofs.wf w -> caps w -> legal2 s own w o ->
+  exists s' out w', step2 refuse s o w = Ret (s', out) w' /\
+    Inv (own_after2 o own s') ownd [] w' /\ HCont_proofs.wf w' /\ caps w'.
+Proof. exact C04_step2. Qed.
+Print Assumptions C04_step_strings.
+
+Theorem C04_string_lifecycle : forall refuse s own ownd w text bytes,
+  Inv own ownd [] w -> caps w ->
+  refuse (nreq w) SZ_ITEM = false -> refuse (nreq w + 1) (len bytes) = false ->
+  let a := next w in let d := next w + 1 in let h := length (handles s) in
+  exists s1 w1 w2 w3,
+    new_definite_string_op refuse s text w = Ret (s1, OutHandle true) w1 /\
+    hget s1 h = Some a /\
+    set_handle_new refuse s1 h bytes w1 = Ret (s1, OutBool true) w2 /\
+    decref a w2 = Ret tt w3 /\
+    trace w3 = [EvFree (Some a); EvFree (Some d); EvMalloc (len bytes) (Some d); EvMalloc SZ_ITEM (Some a)] ++ trace w /\
+    (forall b, heap w3 b = heap w b) /\ next w3 = next w + 2 /\
+    Inv own ownd [] w3 /\ HCont_proofs.wf w3 /\ caps w3.
+Proof. exact string_lifecycle. Qed.
+Print Assumptions C04_string_lifecycle.
